@@ -135,6 +135,14 @@ def run(ctx):
         paths[hs] = [x["hist"] for x in r2.rows]
         ctx.log("GridBuffersMC save=%s: %d reachable states; %d paths" % (hs, r.distinct, len(paths[hs])))
     ctx.exhaustive = True
+    # unbounded backing of the bounded state graph: an inductive invariant of the same actions, discharged symbolically by
+    # Apalache (any number of writes / versions; GridBuffersApa.tla is the typed copy of GridBuffers.tla's actions)
+    for (init, inv, n, what) in (("Init", "IndInv", 0, "Init => IndInv"), ("IndInit", "IndInv", 1, "IndInv /\\ Next => IndInv'"),
+                                 ("IndInit", "Consequences", 0, "IndInv => invariants of GridBuffers.tla")):
+        if not ctx.apalache("GridBuffersApa", init, inv, n, cinit="CInit", what=what):
+            raise Machinery("GridBuffersApa: %s does not hold (the inductive invariant of the buffer model is wrong)" % what)
+    ctx.note("Apalache: IndInv of GridBuffersApa is inductive (Init => IndInv; IndInv /\\ Next => IndInv'; IndInv => the five "
+             "invariants of GridBuffers.tla) - unbounded in versions and history length")
     events, meta = {True: [], False: []}, {True: [], False: []}
     nhist = 0
     for hs in (True, False):
